@@ -82,6 +82,16 @@ def run_bdl(p):
     return res, srv, rig
 
 
+def model_skips(op):
+    """TEMPORARY (until the model of BlockDownloadStream.write/close follows /repo ac075cc): transfers whose
+    declared size is absent or differs from the payload length reach the changed `_pending` logic; they are
+    judged by the oracle only"""
+    a = op.split(" ")
+    if a[0] != "bdl":
+        return False
+    return a[4] == "-" or int(a[4]) != len(parse_data(a[3]))
+
+
 def run_impl(op):
     a = op.split(" ")
     if a[0] == "crc":
